@@ -17,7 +17,7 @@
 
 import uuid
 from types import FrameType
-from typing import Dict, Optional, List
+from typing import Dict, Optional, List, Tuple
 
 import deep.logging
 from deep.api.plugin import TracepointLogger
@@ -150,15 +150,26 @@ class TriggerContext:
         :param expression: the expression
         :return: the result of the expression, or the exception that was raised.
         """
+        return self.try_evaluate(expression)[1]
+
+    def try_evaluate(self, expression: str) -> Tuple[bool, any]:
+        """
+        Evaluate an expression to a value, and say if that worked.
+
+        (An expression can evaluate to an exception object without having failed.)
+
+        :param expression: the expression
+        :return: (True, the result of the expression), or (False, the exception that was raised).
+        """
         try:
             # evaluate in the scope of the paused frame (its module globals and its locals), not in ours. The names go
             # into ONE namespace (locals over globals): a generator expression or lambda inside the expression is a
             # nested scope, which can see the global namespace of an eval but never its local one
             scope = dict(getattr(self.__frame, 'f_globals', None) or {})
             scope.update(self.__frame.f_locals)
-            return eval(expression, scope)
+            return True, eval(expression, scope)
         except BaseException as e:
-            return e
+            return False, e
 
     def attach_result(self, result: ActionResult):
         """
